@@ -96,6 +96,13 @@ func (r *R) Gen(ctx sdk.Context, g *hx.Rng) string {
 		}
 		return p.P.Id
 	}
+	// genesis round trip inside the history (C12): the exported document, and a re-import
+	if len(ps) > 0 && g.Chance(1, 25) {
+		if g.Chance(1, 2) {
+			return "farm export"
+		}
+		return "farm reimport"
+	}
 	kind := g.Pick(7, 24, 13, 11, 9, 3, 26)
 	if len(live) == 0 && g.Chance(2, 3) {
 		kind = 0
